@@ -1,6 +1,4 @@
-import Goyang.Model.Dump
-import Goyang.Model.TypesLite
-import Goyang.Model.Types
+import Goyang.Model.Pipeline
 /-
 Resolver driver.
   process <ignoreCircular 0/1> <ignoreNotSupported 0/1> <files in wire format>
@@ -8,52 +6,14 @@ Resolver driver.
 -/
 open Goyang Goyang.Proto Goyang.Model
 
-/-- Statements the resolver model does not interpret. -/
-partial def outside (s : Stmt) (parentKw : String) : Option String :=
-  if s.kw == "refine" then some "refine"
-  else if s.kw == "augment" && parentKw == "uses" then some "uses-augment"
-  else if s.kw == "augment" && !s.arg.startsWith "/" then some "relative-augment"
-  else if (s.kw.splitOn ":").length == 2 && (s.kw.splitOn "posix-pattern").length > 1 then some "posix-pattern"
-  else s.subs.findSome? fun c => outside c s.kw
-
-/-- `Modules.Parse` (after the repair it is atomic: either every top-level statement of the text
-is added or none). -/
-def loadFile (reg : Registry) (f : SrcFile) : Registry :=
-  match f.stmts.foldlM (fun r s => r.add s) reg with
-  | .ok r => r
-  | .error _ => reg
-
-def loadFiles (files : List SrcFile) : Registry := files.foldl loadFile {}
-
-def plugLite : Plug := { tres := typesLite, identityErrs := fun _ => [], typedefErrs := fun _ => [] }
-
-/-- Which statement of a cyclic type definition Go reports depends on where the cycle is entered
-first (memoisation); the dump compares such errors without their position. -/
-def normTypeErr (e : Err) : Err := if e.cls == "cycle" then Err.bare "type-cycle" else e
-
-/-- The other layers plugged in: type resolution (C09 layer) and identity resolution (C11 layer),
-with the environment (links, identity dictionary) built once per registry. -/
-def plugFull (reg : Registry) : Plug :=
-  let env := Types.Env.of reg
-  { tres := { resolve := fun _ root scope t =>
-      let (y, errs) := Types.resolveTypeE env root scope t
-      (y.map fun y => { dump := y.dump, hasDefault := y.hasDefault, default := y.default }, errs.map normTypeErr) },
-    identityErrs := fun reg =>
-      match Identity.run (Identity.Oracle.ofNat 0) reg with
-      | .done res _ => res.errs
-      | _ => [],
-    typedefErrs := fun _ => (Types.resolveAllTypedefsE env).map normTypeErr }
-
 def handle : List String → String
   | "process" :: ic :: ins :: rest =>
     match Wire.decFiles (rest.length + 1) rest with
     | some (files, []) =>
-      match files.findSome? fun f => f.stmts.findSome? fun s => outside s "" with
-      | some why => "outsideModel " ++ why
-      | none =>
-        let reg := loadFiles files
-        let opts : Opts := { ignoreCircular := ic == "1", ignoreNotSupported := ins == "1" }
-        dumpOutcome (processAll reg opts (plugFull reg))
+      let opts : Opts := { ignoreCircular := ic == "1", ignoreNotSupported := ins == "1" }
+      match processFiles opts files with
+      | .error why => "outsideModel " ++ why
+      | .ok o => dumpOutcome o
     | _ => "outsideModel undecodable"
   | _ => "bad-op"
 
